@@ -11,7 +11,7 @@
    replace_all with '$0' returns the input unchanged (through the expansion loop and the
    simple-replacement latch), given that group 0 of a reported match is the reported span.
    Partial: the interface facts of the matcher are hypotheses outside the engine fragment. *)
-From RX Require Import Base.Prelude Model.Engine Model.Matcher Model.Api Model.Run Proofs.ScanFacts Proofs.AnalyzeFacts Proofs.AnalyzeIterFacts Spec.Repl Proofs.ReplaceFacts Model.Op Proofs.EngineFacts Proofs.FrameFacts Proofs.FragmentApi.
+From RX Require Import Base.Prelude Model.Engine Model.Matcher Model.Api Model.Run Proofs.ScanFacts Proofs.AnalyzeFacts Proofs.AnalyzeIterFacts Spec.Repl Proofs.ReplaceFacts Model.Op Proofs.EngineFacts Proofs.FrameFacts Proofs.FragmentApi Spec.Syntax Spec.Parse Model.Compiler Proofs.PlainPattern Proofs.PlainSpec.
 
 Theorem C04_tokenize_pieces_partial :
   forall matchf input, good_step matchf input ->
@@ -72,9 +72,31 @@ Theorem C04_fragment_tokenize_pieces :
       = Ok (pieces input (scan (matches prog input) input (S k) pe s) pe).
 Proof. exact fragment_tokenize. Qed.
 
+(* tokenize and analyze from the strings for patterns of ordinary characters: the tokens are the
+   pieces between the occurrences the scan visits; the texts of the entries of a finished analyze
+   iteration concatenate to the input.  No hypothesis about parser, matcher or scan loop. *)
+Theorem C04_ordinary_pattern_end_to_end :
+  forall xpath pat fls input,
+    forallb ordinary pat = true -> pat <> [] -> (N.of_nat (length pat) <= umax)%N ->
+    existsb (N.eqb 59) fls = false ->
+    match spec_flags xpath fls with
+    | Valid sf =>
+        s_q sf = false -> s_x sf = false ->
+        exists re, regex_new false xpath pat fls = Ok re /\ r_nullable re = false
+          /\ tok_all (matches (r_prog re) input) input (S (S (S (length input)))) {| t_prev := Some 0; t_ms := st0 |}
+             = Ok (pieces input (scan (matches (r_prog re) input) input (S (S (length input))) 0 st0) 0)
+          /\ (forall table fuel l,
+                an_all (matches (r_prog re) input) (process_matching_substring table) input fuel
+                       {| a_next := None; a_prev := Some 0; a_skip := false; a_ms := st0 |} = Ok l ->
+                flat_map atext l = input /\ length l <= 2 * length input + 1)
+    | _ => True
+    end.
+Proof. exact ordinary_tokenize_analyze_end_to_end. Qed.
+
 Print Assumptions C04_tokenize_pieces_partial.
 Print Assumptions C04_replace_joins_pieces_partial.
 Print Assumptions C04_analyze_texts_partial.
 Print Assumptions C04_analyze_iterator_partial.
 Print Assumptions C04_replace_dollar0_identity_partial.
 Print Assumptions C04_fragment_tokenize_pieces.
+Print Assumptions C04_ordinary_pattern_end_to_end.
